@@ -38,7 +38,7 @@ pub struct ChainState {
     pub src_fault: Option<(u64, u64, SrcFault)>,
     /// fail every `get_block` of these hashes
     pub undownloadable: HashMap<BlockHash, SrcFault>,
-    salt: u32,
+    pub salt: u32,
 }
 
 pub fn header_work(h: &Header) -> Work {
@@ -152,6 +152,25 @@ impl ChainState {
             }
         }
         None
+    }
+
+    /// The blocks a tower whose tip is `tip` has to connect to reach the active tip (after
+    /// disconnecting down to the common ancestor), oldest first.
+    pub fn connects_from(&self, tip: &BlockHash) -> Vec<BlockHash> {
+        let mut cur = match self.blocks.get(tip) {
+            Some(sb) => sb,
+            None => return vec![],
+        };
+        loop {
+            let h = cur.height as usize;
+            if h < self.active.len() && self.active[h] == cur.block.block_hash() {
+                return self.active[h + 1..].to_vec();
+            }
+            match self.blocks.get(&cur.block.header.prev_blockhash) {
+                Some(p) => cur = p,
+                None => return vec![],
+            }
+        }
     }
 
     pub fn header_data(&self, h: &BlockHash) -> Option<BlockHeaderData> {
